@@ -569,6 +569,9 @@ def c15(ctx):
                                allpos=not q, maxsched=40 if q else 300)
     ctx.random_validate("data", 32 if q else 200, 40)
     ctx.attack_catalogue("tags")
+    # the binding over a conversation's life (End, the peer's disconnect, new sessions)
+    ctx.export_validate("c15x-life", dict(PolA=3, PolB=3, MaxSend=1, MaxFlight=3, MaxQuery=1, MaxEnd=1), "none", drain=True,
+                        maxsched=600 if q else 8000)
     # fragments carry instance tags of their own: Frag.tla says which instance the conversation is bound to
     frag_model(ctx, sender=False)
 
@@ -764,6 +767,7 @@ def c10(ctx):
     ctx.random_validate("data", 32 if q else 320, 80)
     ctx.random_validate("fragsweep", 8 if q else 32, 30)
     ctx.random_validate("life", 32 if q else 320, 60)
+    ctx.random_validate("shortdh", 16 if q else 64, 4 if q else 8)
     ctx.attack_catalogue("ake")
 
 
@@ -870,6 +874,8 @@ CHECK_DEADLOCK FALSE
     # codec and must give the record the specification computes
     ctx.random_validate("smp", 8 if q else 80, 3)
     ctx.random_validate("data", 16 if q else 160, 60)
+    # handshakes and traffic in which every DH public value has a leading zero byte (minimal form on the wire)
+    ctx.random_validate("shortdh", 16 if q else 64, 4 if q else 8)
 
 
 def c13(ctx):
